@@ -137,6 +137,7 @@ impl Event {
 
 thread_local! {
     static BUFFER: RefCell<Option<Vec<Event>>> = RefCell::new(None);
+    static OBSERVER: RefCell<Option<Box<dyn FnMut(&Event)>>> = RefCell::new(None);
     static THREAD: RefCell<(u64, u64)> = RefCell::new((0, 0));
 }
 
@@ -170,7 +171,19 @@ pub fn take_recording() -> Vec<Event> {
     BUFFER.with(|b| b.borrow_mut().take().unwrap_or_default())
 }
 
+/// Install (or remove) a callback which is run on this thread for every event as it is emitted.
+pub fn set_observer(observer: Option<Box<dyn FnMut(&Event)>>) {
+    OBSERVER.with(|o| *o.borrow_mut() = observer);
+}
+
 pub fn emit(event: Event) {
+    OBSERVER.with(|o| {
+        if let Ok(mut observer) = o.try_borrow_mut() {
+            if let Some(observer) = observer.as_mut() {
+                observer(&event);
+            }
+        }
+    });
     if let Some(sink) = file_sink() {
         let (thread, seq) = THREAD.with(|t| {
             let mut t = t.borrow_mut();
